@@ -1551,6 +1551,129 @@ pub fn run() {
       run.violation(&format!("value:sort:{}", text), &format!("`{}` evaluates to {} but the specification gives {}", text, got_s, want), json!({"engine":"c08","text":text,"expected":want}));
     }
   }
+  // sort, enumerated: every list of the number-list alphabet (incl. the 9..65 item lists) and string lists x precedes functions
+  // that are strict or non-strict orders in both directions; lists of contexts with distinct keys in every arrangement.
+  // Where every pair of items is comparable the sorted sequence is unique as a sequence of values (equal items are
+  // indistinguishable); a list with incomparable items (precedes yields null) is executed and not compared.
+  {
+    let precedes: Vec<(&str, bool)> = vec![
+      ("function(x, y) x < y", true),
+      ("function(x, y) x > y", false),
+      ("function(x, y) x <= y", true),
+      ("function(x, y) y < x", false),
+      ("function(a, b) if a < b then true else false", true),
+      ("function(x, y) not(x >= y)", true),
+    ];
+    let mut sort_lists: Vec<RVal> = number_lists(thorough);
+    let words = ["b", "a", "c", "", "é", "ab", "B", "🐎", "日本"];
+    for i in 0..words.len() {
+      for j in 0..words.len() {
+        sort_lists.push(l(vec![s(words[i]), s(words[j])]));
+        for k in 0..words.len() {
+          if i < 4 && j < 5 {
+            sort_lists.push(l(vec![s(words[i]), s(words[j]), s(words[k])]));
+          }
+        }
+      }
+    }
+    sort_lists.push(l(words.iter().map(|w| s(w)).collect()));
+    let names: BTreeSet<String> = ["x", "y", "a", "b", "k", "v", "list", "precedes", "p0"].iter().map(|s| s.to_string()).collect();
+    sort_lists.par_iter().for_each(|lst| {
+      let ps = parse_scope_of(&names);
+      let items = match lst {
+        List(v) => v.clone(),
+        _ => return,
+      };
+      let comparable = items.iter().all(|a| items.iter().all(|b| cmp_vals(a, b).is_some()));
+      let scope = match scope_with(&[lst.clone()]) {
+        Some(s) => s,
+        None => return,
+      };
+      for (f, ascending) in &precedes {
+        for form in 0..3 {
+          let text = match form {
+            0 => format!("sort(p0, {})", f),
+            1 => format!("sort(list: p0, precedes: {})", f),
+            _ => format!("sort(precedes: {}, list: p0)", f),
+          };
+          cases.fetch_add(1, Ordering::Relaxed);
+          let got = dmntk_feel_parser::parse_expression(&ps, &text, false).map_err(|e| e.to_string()).and_then(|n| dmntk_feel_evaluator::evaluate(&scope, &n).map_err(|e| e.to_string()));
+          let observed = match got {
+            Ok(v) => v,
+            Err(e) => {
+              run.violation("error:sort", &format!("`{}` with {} fails: {}", text, lst.show(), e), json!({"engine":"c08","text":text}));
+              continue;
+            }
+          };
+          if !comparable {
+            unspec.fetch_add(1, Ordering::Relaxed);
+            continue;
+          }
+          let mut sorted = items.clone();
+          sorted.sort_by(|a, b| cmp_vals(a, b).unwrap());
+          if !*ascending {
+            sorted.reverse();
+          }
+          let expected = l(sorted);
+          compared.fetch_add(1, Ordering::Relaxed);
+          nontrivial.fetch_add(1, Ordering::Relaxed);
+          if !matches!(compare(&observed, &expected), Cmp::Same) {
+            let kind = if items.iter().all(|i| matches!(i, Str(_))) { "strings" } else { "numbers" };
+            let size = if items.len() <= 4 { "up-to-4-items" } else if items.len() <= 20 { "5-to-20-items" } else { "more-than-20-items" };
+            run.violation(
+              &format!("value:sort/2:{}:{}:{}", kind, size, if form == 0 { "positional" } else { "named" }),
+              &format!("{} evaluates to {} but the specification gives {}", text.replace("p0", &lst.show()), show_value(&observed), expected.show()),
+              json!({"engine":"c08","text":text.replace("p0", &lst.show()),"bindings":[],"expected":expected.show()}),
+            );
+          }
+        }
+      }
+    });
+    // lists of contexts with distinct keys: every arrangement of 3 and of 4 items, sorted by the key in both directions;
+    // the other entry travels with its context
+    let ps = parse_scope_of(&names);
+    for size in [3usize, 4] {
+      for perm in permutations(size) {
+        let items: Vec<RVal> = perm.iter().map(|i| Ctx(vec![("k".into(), n(*i as i64 + 1)), ("v".into(), s(&format!("v{}", i)))])).collect();
+        let lst = l(items.clone());
+        let scope = match scope_with(&[lst.clone()]) {
+          Some(s) => s,
+          None => continue,
+        };
+        for (f, ascending) in [("function(x, y) x.k < y.k", true), ("function(x, y) x.k > y.k", false), ("function(x, y) x.v < y.v", true)] {
+          let text = format!("sort(p0, {})", f);
+          cases.fetch_add(1, Ordering::Relaxed);
+          let got = dmntk_feel_parser::parse_expression(&ps, &text, false).map_err(|e| e.to_string()).and_then(|n| dmntk_feel_evaluator::evaluate(&scope, &n).map_err(|e| e.to_string()));
+          let mut sorted = items.clone();
+          sorted.sort_by_key(|c| match c {
+            Ctx(e) => int_of(&e[0].1).unwrap_or(0),
+            _ => 0,
+          });
+          if !ascending {
+            sorted.reverse();
+          }
+          let expected = l(sorted);
+          compared.fetch_add(1, Ordering::Relaxed);
+          nontrivial.fetch_add(1, Ordering::Relaxed);
+          let ok = match &got {
+            Ok(v) => matches!(compare(v, &expected), Cmp::Same),
+            Err(_) => false,
+          };
+          if !ok {
+            let shown = match &got {
+              Ok(v) => show_value(v),
+              Err(e) => format!("error {}", e),
+            };
+            run.violation(
+              "value:sort/2:contexts-by-an-entry",
+              &format!("{} evaluates to {} but the specification gives {}", text.replace("p0", &lst.show()), shown, expected.show()),
+              json!({"engine":"c08","text":text.replace("p0", &lst.show()),"bindings":[],"expected":expected.show()}),
+            );
+          }
+        }
+      }
+    }
+  }
   run.sample(json!({"call":"substring(\"a🐎b\", -2, 1)","reference":"\"🐎\""}));
   run.sample(json!({"call":"replace(\"aXbXc\", \"(a)(b)\", \"[$2$1]\")","named":"replace(replacement: p2, input: p0, pattern: p1)"}));
   run.sample(json!({"call":"mode([6, 1, 9, 6, 1])","reference":"[1, 6]"}));
